@@ -91,6 +91,9 @@ pub struct RunOpts {
     /// shift the process's wall clock by this many seconds (LD_PRELOAD shim tools/vpclock.c; ignored when the shim
     /// was not built): the result of a run must not depend on when it happens
     pub clock_offset: Option<i64>,
+    /// stdout of the tool is a pseudo terminal (raw mode, so the bytes arrive unchanged) instead of a pipe: what is
+    /// printed must not depend on whether somebody is watching
+    pub tty: bool,
 }
 
 /// the clock shim built by `vp setup` (None when it is missing)
@@ -101,7 +104,7 @@ pub fn clock_lib() -> Option<PathBuf> {
 
 impl RunOpts {
     pub fn new(coin: Coin, callback: Callback) -> RunOpts {
-        RunOpts { coin, start: None, end: None, verify: false, callback, threads: None, fsize: None, nofile: None, pin: false, inject: None, trace: None, trace_paths: vec![], timeout_s: std::env::var("VP_TIMEOUT").ok().and_then(|v| v.parse().ok()).unwrap_or(90), verbose: 0, path_style: 0, bin: None, pause_on: None, clock_offset: None }
+        RunOpts { coin, start: None, end: None, verify: false, callback, threads: None, fsize: None, nofile: None, pin: false, inject: None, trace: None, trace_paths: vec![], timeout_s: std::env::var("VP_TIMEOUT").ok().and_then(|v| v.parse().ok()).unwrap_or(90), verbose: 0, path_style: 0, bin: None, pause_on: None, clock_offset: None, tty: false }
     }
 }
 
@@ -407,8 +410,30 @@ fn run_tool_once(datadir: &Path, dump: &Path, o: &RunOpts) -> Result<RunOut, Str
             Ok(())
         });
     }
+    let mut pty_master: Option<std::fs::File> = None;
+    if o.tty {
+        use std::os::fd::FromRawFd;
+        let (mut m, mut sl) = (0i32, 0i32);
+        let ok = unsafe { libc::openpty(&mut m, &mut sl, std::ptr::null_mut(), std::ptr::null_mut(), std::ptr::null_mut()) } == 0;
+        if ok {
+            unsafe {
+                let mut t: libc::termios = std::mem::zeroed();
+                libc::tcgetattr(sl, &mut t);
+                libc::cfmakeraw(&mut t);
+                libc::tcsetattr(sl, libc::TCSANOW, &t);
+                libc::fcntl(m, libc::F_SETFD, libc::FD_CLOEXEC);
+                cmd.stdout(Stdio::from(std::os::fd::OwnedFd::from_raw_fd(sl)));
+                pty_master = Some(std::fs::File::from_raw_fd(m));
+            }
+        }
+    }
     let mut child = cmd.spawn().map_err(|e| format!("spawn {}: {}", bin.display(), e))?;
-    let mut so = child.stdout.take().expect("piped stdout");
+    // the command owns the slave side of the pseudo terminal: release it so that the master sees the end of output
+    drop(cmd);
+    let mut so: Box<dyn std::io::Read + Send> = match pty_master {
+        Some(m) => Box::new(m),
+        None => Box::new(child.stdout.take().expect("piped stdout")),
+    };
     let mut se = child.stderr.take().expect("piped stderr");
     let pause = o.pause_on.clone();
     let pid = child.id() as i32;
